@@ -672,6 +672,15 @@ impl NodeRecordStore {
         let record_key = PrettyPrintRecordKey::from(&r.key).into_owned();
         debug!("PUTting a verified Record: {record_key:?}");
 
+        // `put` refuses oversized records, but replicated records get here without passing it
+        if r.value.len() >= self.config.max_value_bytes {
+            warn!(
+                "Record {record_key:?} not stored. Value too large: {} bytes",
+                r.value.len()
+            );
+            return Err(Error::ValueTooLarge);
+        }
+
         // if cache already has the record :
         //   * if with same content, do nothing and return early
         //   * if with different content, remove the existing one
